@@ -478,6 +478,10 @@ def check_C05(tier, seed):
                                       tails=("none", "delpath", "delpathmk")), ["two"]))
         n, act, fill = spread(3, 14)
         gens.append(("kv3f14", gen_cfg(n, act, fill, ends=("commit",)), ["three"]))
+        # a bucket of 8 keys deleted as a whole: with 300-byte keys its root is a branch page with an overflow page
+        n, act, fill = spread(2, 6)
+        gens.append(("delbig", gen_cfg(n, act, fill, pre=("kv",), acts=("keep", "put"), ends=("commit",),
+                                       tails=("delpath", "delpathmk")), ["three", "longkey"]))
         runs = [dict(profile=p, seed=seed * 100 + i, n=4, len=50, nkeys=12, nvals=4, args=["--readback", "0"])
                 for i, p in enumerate(["two", "three", "overflow", "longkey"])]
     else:
@@ -493,6 +497,9 @@ def check_C05(tier, seed):
         gens.append(("kv6f14", gen_cfg(n, act, fill, ends=("commit",)), ["three", "longkey"]))
         n, act, fill = spread(5, 30)
         gens.append(("kv5f30", gen_cfg(n, act, fill, ends=("commit",)), ["three"]))
+        n, act, fill = spread(3, 9)
+        gens.append(("delbig", gen_cfg(n, act, fill, pre=("kv",), acts=("keep", "put", "del"), ends=("commit", "reopen"),
+                                       tails=("delpath", "delpathmk")), ["three", "longkey", "overflow"]))
         runs = [dict(profile=p, seed=seed * 1000 + i * 10 + j, n=8, len=70, nkeys=nk, nvals=5, args=["--readback", "0"])
                 for i, p in enumerate(["two", "three", "overflow", "longkey", "hibytes", "empty"])
                 for j, nk in enumerate([10, 30])]
@@ -823,7 +830,7 @@ def check_C10(tier, seed):
                  ("delins", "three", 24, 60, []),
                  ("bucketdel", "overflow", 16, 60, ["--reopen-every", "25"]),
                  ("fixed", "overflow", 24, 60, ["--reader-from", "10", "--reader-to", "25", "--num-pages", "4096"]),
-                 ("fixed", "two", 24, 50, ["--reader-plan", "o1@4,o8@4,o2@6,o3@8,c8@9,c1@11,c3@12,c2@13,o4@20,o9@20,o5@22,c4@24,c5@25,c9@27",
+                 ("fixed", "two", 24, 50, ["--reader-plan", "o1@4,o2@6,o3@8,c1@11,c3@12,c2@13,o4@20,o9@20,o5@22,c4@24,c5@25,c9@27",
                                            "--num-pages", "4096"]),
                  ("bucketdel", "overflow", 12, 12, ["--decode", "1"]),
                  # a free list of more than one page (> 124 ids at 1 KiB pages), reloaded at every reopen
@@ -837,7 +844,7 @@ def check_C10(tier, seed):
                  ("bucketdel", "longkey", 16, 500, []),
                  ("fixed", "overflow", 32, 600, ["--reader-from", "50", "--reader-to", "200", "--num-pages", "65536"]),
                  ("varsize", "hibytes", 32, 300, ["--reader-from", "20", "--reader-to", "60", "--num-pages", "65536"]),
-                 ("fixed", "two", 32, 400, ["--reader-plan", "o1@4,o8@4,o2@6,o3@8,c8@9,c1@11,c3@12,c2@13,o4@50,o9@50,o5@52,o6@54,o7@56,c4@58,c6@60,c9@61,c7@62,c5@63",
+                 ("fixed", "two", 32, 400, ["--reader-plan", "o1@4,o2@6,o3@8,c1@11,c3@12,c2@13,o4@50,o9@50,o5@52,o6@54,o7@56,c4@58,c6@60,c9@61,c7@62,c5@63",
                                             "--num-pages", "65536"]),
                  ("bucketdel", "overflow", 16, 60, ["--decode", "1"]),
                  ("varsize", "two", 24, 40, ["--decode", "1"]),
